@@ -138,36 +138,62 @@ func checkC20(r *Run) {
 		r.Infra("query did not plan: %v", err)
 		return
 	}
+	// A materialised node may be run more than once (LookupJoin runs its joined side once per outer
+	// record): in a third of the runs the same node is run a second time over the same stream and must
+	// emit the same sequence again.
+	passes := 1
+	if hdr.Chance(1, 3) {
+		passes = 2
+		attrs["second_run_of_the_node"] = "true"
+	}
 	var got []string
-	func() {
-		defer func() {
-			if p := recover(); p != nil {
-				err = fmt.Errorf("panic: %v", p)
-			}
-		}()
-		err = planned.Node.Run(execution.ExecutionContext{Context: bubbleCtx()},
-			func(ctx execution.ProduceContext, rec execution.Record) error {
-				s := fmt.Sprintf("rec %s et=%s", RowString(rec.Values), msString(rec.EventTime))
-				if rec.Retraction {
-					s = "RETRACTION " + s
+	for pass := 0; pass < passes && err == nil; pass++ {
+		got = nil
+		if pass > 0 {
+			r.Log("second run of the same node")
+			r.Probe("node_run_twice")
+		}
+		func() {
+			defer func() {
+				if p := recover(); p != nil {
+					err = fmt.Errorf("panic: %v", p)
 				}
-				r.SinkLog("  out %s", s)
-				got = append(got, s)
-				return nil
-			},
-			func(ctx execution.ProduceContext, msg execution.MetadataMessage) error {
-				s := "wm " + msString(msg.Watermark)
-				r.SinkLog("  out %s", s)
-				got = append(got, s)
-				return nil
-			})
-	}()
+			}()
+			err = planned.Node.Run(execution.ExecutionContext{Context: bubbleCtx()},
+				func(ctx execution.ProduceContext, rec execution.Record) error {
+					s := fmt.Sprintf("rec %s et=%s", RowString(rec.Values), msString(rec.EventTime))
+					if rec.Retraction {
+						s = "RETRACTION " + s
+					}
+					r.SinkLog("  out %s", s)
+					got = append(got, s)
+					return nil
+				},
+				func(ctx execution.ProduceContext, msg execution.MetadataMessage) error {
+					s := "wm " + msString(msg.Watermark)
+					r.SinkLog("  out %s", s)
+					got = append(got, s)
+					return nil
+				})
+		}()
+		if pass+1 < passes && err == nil {
+			if d := c20Diff(got, expect); d != "" {
+				break
+			}
+		}
+	}
 	r.AddEvents(len(got))
 	r.Log("run returned err=%v", err)
 	if err != nil {
 		r.Violate("C20", "run_error", attrs, "max_diff_watermark failed: %v", err)
 		return
 	}
+	if d := c20Diff(got, expect); d != "" {
+		r.Violate("C20", "sequence_mismatch", attrs, "%s (watermark = largest time rounded down to %dms minus %dms; records at or below the watermark dropped)", d, res, maxDiffMs)
+	}
+}
+
+func c20Diff(got, expect []string) string {
 	for i := 0; i < len(got) || i < len(expect); i++ {
 		g, e := "<nothing>", "<nothing>"
 		if i < len(got) {
@@ -177,8 +203,8 @@ func checkC20(r *Run) {
 			e = expect[i]
 		}
 		if g != e {
-			r.Violate("C20", "sequence_mismatch", attrs, "output #%d is %q, specified %q (watermark = largest time rounded down to %dms minus %dms; records at or below the watermark dropped)", i+1, g, e, res, maxDiffMs)
-			return
+			return fmt.Sprintf("output #%d is %q, specified %q", i+1, g, e)
 		}
 	}
+	return ""
 }
